@@ -83,8 +83,9 @@ class CtorFn:
 class UFn:
   """Pure, total, deterministic external function: uninterpreted symbol.
   argsorts may be None for 'any arity, opaque args' (then args are coerced to `opaque`)."""
-  def __init__(self, name, argsorts, ret, note=''):
+  def __init__(self, name, argsorts, ret, note='', native=None):
     self.name, self.argsorts, self.ret, self.note = name, argsorts, ret, note
+    self.native = native  # python implementation used when contracts are evaluated natively
     self._decl = None
 
   def decl(self):
@@ -123,3 +124,9 @@ class BoundMethod:
 
 class Namespace(dict):
   pass
+
+
+class LitSet:
+  """set literal of python string literals whose element sort is decided by use"""
+  def __init__(self, items):
+    self.items = frozenset(items)
